@@ -1,7 +1,7 @@
 use encoding::Encoding;
-//@ item src:zvt_builder/src/lib.rs | enum ZVTError
+//@ item src:zvt_builder/src/lib.rs | enum ZVTError | derive=Debug
 //@ item src:zvt_builder/src/lib.rs | type ZVTResult
-//@ item src:zvt_builder/src/lib.rs | struct Tag | derive=PartialEq,Eq,Structural
+//@ item src:zvt_builder/src/lib.rs | struct Tag | derive=Debug,PartialEq,Eq,Structural
 // `#[derive(Clone)]` written out (field-wise clone), so that `tag.clone()` has a specification
 impl Clone for Tag {
     fn clone(&self) -> (r: Self)
@@ -47,6 +47,78 @@ pub open spec fn default_spec_deser<T, L: length::Length, E: encoding::Encoding<
         None => default_spec_deser_body::<T, L, E>(b, 0),
     }
 }
+
+//@ tag st.lemma_tagged_inverse C01
+/// TAG LENGTH DATA written by the reference serialiser reads back as the same value, consuming
+/// exactly what was written, whatever follows (for delimiting length styles).
+pub proof fn lemma_tagged_inverse<T, L: length::Length, E: encoding::Encoding<T>, TE: encoding::Encoding<Tag>>(v: &T, tag: Option<Tag>, s: Seq<u8>)
+    requires
+        default_ser_pre::<T, L, E, TE>(v, tag),
+        L::delimiting() || s.len() == 0,
+        tag matches Some(t) ==> TE::self_delimiting() && TE::canon(&t),
+        // canonical value: survives the padding this length style adds (no padding: E::law_inverse)
+        E::spec_dec(L::spec_pad(E::spec_enc(v).len() as usize) + E::spec_enc(v))
+            == Some((*v, (L::spec_pad(E::spec_enc(v).len() as usize) + E::spec_enc(v)).len() as int)),
+    ensures
+        default_spec_deser::<T, L, E, TE>(default_spec_ser::<T, L, E, TE>(v, tag) + s, tag)
+            == Some((*v, default_spec_ser::<T, L, E, TE>(v, tag).len() as int)),
+{
+    let enc = E::spec_enc(v);
+    let len = enc.len() as usize;
+    let pre = L::spec_ser(len);
+    let tb = tag_bytes::<TE>(tag);
+    let b = default_spec_ser::<T, L, E, TE>(v, tag) + s;
+    let b1 = pre + enc + s;
+    assert(b =~= tb + b1);
+    L::law_inverse(len, enc, s);
+    let (n, k) = L::spec_deser(b1).unwrap();
+    assert(b1.skip(k).subrange(0, n as int) =~= b1.subrange(k, k + n));
+    match tag {
+        Some(t) => {
+            TE::law_inverse(&t);
+            TE::law_dec_frame(tb, b1);
+            assert(b.skip(tb.len() as int) =~= b1);
+        }
+        None => {
+            assert(b =~= b1);
+        }
+    }
+}
+
+//@ tag st.lemma_tagged_frame C14
+/// a decoded field depends only on the bytes inside its announced length: appending anything
+/// changes neither the value nor the number of bytes consumed
+pub proof fn lemma_tagged_frame<T, L: length::Length, E: encoding::Encoding<T>, TE: encoding::Encoding<Tag>>(b: Seq<u8>, tag: Option<Tag>, s: Seq<u8>)
+    requires
+        L::wf(), L::delimiting(),
+        tag is Some ==> TE::self_delimiting(),
+        default_spec_deser::<T, L, E, TE>(b, tag) is Some,
+    ensures
+        default_spec_deser::<T, L, E, TE>(b + s, tag) == default_spec_deser::<T, L, E, TE>(b, tag),
+{
+    match tag {
+        Some(t) => {
+            TE::law_dec_frame(b, s);
+            let k0 = TE::spec_dec(b).unwrap().1;
+            lemma_body_frame::<T, L, E>(b.skip(k0), k0, s);
+            TE::law_dec_bounds(b);
+            assert((b + s).skip(k0) =~= b.skip(k0) + s);
+        }
+        None => {
+            lemma_body_frame::<T, L, E>(b, 0, s);
+        }
+    }
+}
+pub proof fn lemma_body_frame<T, L: length::Length, E: encoding::Encoding<T>>(b1: Seq<u8>, k0: int, s: Seq<u8>)
+    requires L::wf(), L::delimiting(), default_spec_deser_body::<T, L, E>(b1, k0) is Some,
+    ensures default_spec_deser_body::<T, L, E>(b1 + s, k0) == default_spec_deser_body::<T, L, E>(b1, k0),
+{
+    L::law_frame(b1, s);
+    let (n, k) = L::spec_deser(b1).unwrap();
+    L::law_bounds(b1);
+    assert((b1 + s).skip(k).subrange(0, n as int) =~= b1.skip(k).subrange(0, n as int));
+}
+//@ untag
 
 pub trait ZvtSerializerImpl<
     L: length::Length = length::Empty,
@@ -143,3 +215,65 @@ where
         let ghost bytes0 = bytes@;
     //@ end
 }
+
+// ------------------------------------------------------------------ packets: ZvtSerializer / ZvtParser
+pub open spec fn ctrl_tag(class: u8, instr: u8) -> Tag { Tag((class as u16 * 256 + instr as u16) as u16) }
+
+pub trait ZvtSerializer: ZvtSerializerImpl
+where
+    Self: Sized,
+    encoding::Default: encoding::Encoding<Self>,
+{
+    spec fn zs_pre(&self) -> bool;
+    /// the complete wire form of the packet
+    spec fn zs_spec(&self) -> Seq<u8>;
+    spec fn zd_pre() -> bool;
+    spec fn zd_defined(b: Seq<u8>) -> bool;
+    spec fn zd_ok(b: Seq<u8>, v: Self, k: int) -> bool;
+    //@ fn src:zvt_builder/src/lib.rs | trait ZvtSerializer | zvt_serialize | sig dropbody
+    //@ tag zs.exact C03 C01
+        requires self.zs_pre(),
+        ensures r@ =~= self.zs_spec(),
+    //@ end
+    //@ fn src:zvt_builder/src/lib.rs | trait ZvtSerializer | zvt_deserialize | sig dropbody props=C02
+        requires Self::zd_pre(),
+        ensures
+    //@ tag zd.defined C01 C02
+            r is Ok <==> Self::zd_defined(bytes@),
+    //@ tag zd.frame C14
+            r matches Ok((v, rest)) ==> is_rest_after(rest@, bytes@, bytes@.len() - rest@.len()),
+    //@ tag zd.ok C01 C14 C15
+            r matches Ok((v, rest)) ==> Self::zd_ok(bytes@, v, bytes@.len() - rest@.len()),
+    //@ end
+}
+
+/// APDU: CLASS INSTR, APDU length, body
+impl<T> ZvtSerializer for T
+where
+    Self: ZvtCommand
+        + ZvtSerializerImpl<length::Adpu, encoding::Default, encoding::BigEndian>
+        + ZvtSerializerImpl,
+    encoding::Default: encoding::Encoding<Self>,
+{
+    open spec fn zs_pre(&self) -> bool {
+        <Self as ZvtSerializerImpl<length::Adpu, encoding::Default, encoding::BigEndian>>::ser_pre(self, Some(ctrl_tag(Self::CLASS, Self::INSTR)))
+    }
+    open spec fn zs_spec(&self) -> Seq<u8> {
+        <Self as ZvtSerializerImpl<length::Adpu, encoding::Default, encoding::BigEndian>>::spec_ser_tagged(self, Some(ctrl_tag(Self::CLASS, Self::INSTR)))
+    }
+    open spec fn zd_pre() -> bool {
+        <Self as ZvtSerializerImpl<length::Adpu, encoding::Default, encoding::BigEndian>>::deser_pre(Some(ctrl_tag(Self::CLASS, Self::INSTR)))
+    }
+    open spec fn zd_defined(b: Seq<u8>) -> bool {
+        <Self as ZvtSerializerImpl<length::Adpu, encoding::Default, encoding::BigEndian>>::deser_defined(b, Some(ctrl_tag(Self::CLASS, Self::INSTR)))
+    }
+    open spec fn zd_ok(b: Seq<u8>, v: Self, k: int) -> bool {
+        <Self as ZvtSerializerImpl<length::Adpu, encoding::Default, encoding::BigEndian>>::deser_ok(b, Some(ctrl_tag(Self::CLASS, Self::INSTR)), v, k)
+    }
+    //@ fn src:zvt_builder/src/lib.rs | impl ZvtSerializer for T | zvt_serialize
+    //@ end
+    //@ fn src:zvt_builder/src/lib.rs | impl ZvtSerializer for T | zvt_deserialize | props=C02
+    //@ end
+}
+
+//@ item src:zvt_builder/src/lib.rs | trait ZvtParser
